@@ -284,16 +284,21 @@ def _r4_geometry(run, ev, fa, state_b):
     f = project.fn("toasty.pyramid.next_highest_power_of_2")
     run.note_func(f)
     ok = False
-    body = [n for n in f.node.body if not (isinstance(n, ast.Expr) and isinstance(n.value, ast.Constant))]
-    if len(body) == 3 and isinstance(body[0], ast.Assign) and isinstance(body[0].value, ast.Constant) and body[0].value.value == 256 \
-            and isinstance(body[1], ast.While) and isinstance(body[2], ast.Return):
-        p = body[0].targets[0].id
-        t = body[1].test
-        okt = isinstance(t, ast.Compare) and isinstance(t.left, ast.Name) and t.left.id == p and isinstance(t.ops[0], ast.Lt) \
-            and isinstance(t.comparators[0], ast.Name) and t.comparators[0].id == f.params()[0]
-        st = body[1].body
-        okb = len(st) == 1 and isinstance(st[0], ast.AugAssign) and isinstance(st[0].op, ast.Mult) and isinstance(st[0].value, ast.Constant) and st[0].value.value == 2
-        ok = okt and okb and isinstance(body[2].value, ast.Name) and body[2].value.id == p
+    pev = sym.make_evaluator(project, "toasty.pyramid", [])
+    pr = pev.run(f.node)
+    n_t = ("sym", f.params()[0])
+    wl = [(k, it) for k, it, nd in pr.loops if it[0] == "op" and it[1] == "while"]
+    if len(wl) == 1 and len(pr.returns) == 1:
+        k, it = wl[0]
+        cond = it[2][0]
+        carried = [a_ for a_ in atoms_of(cond) if a_[0] == "sym" and a_[1].endswith("@L%d" % k)]
+        if len(carried) == 1 and cond == sym.cmp("Lt", carried[0], n_t):
+            name = carried[0][1].split("@")[0]
+            inits = [e for e in pr.events if e.kind == "assign" and e.term[1][0] == ("sym", name) and ("loop", k) not in e.pc]
+            steps = [e for e in pr.events if e.kind == "assign" and e.term[1][0] == ("sym", name) and ("loop", k) in e.pc]
+            ok = len(inits) == 1 and num_value(inits[0].term[1][1]) == 256 and len(steps) == 1 \
+                and steps[0].term[1][1] == sym.mul(num(2), carried[0]) and not [c for c in steps[0].pc if c[0] != "loop"] \
+                and pr.returns[0][1] == ("sym", "%s@A%d" % (name, k)) and not [c for c in pr.returns[0][0] if c[0] != "loop"]
     if ok:
         run.holds("C08.R4", f, None, "next_highest_power_of_2: p = 256; while p < n: p *= 2")
     else:
